@@ -227,7 +227,7 @@ H("C09", "rc4", "c09_prga_step", timeout=600,
   encodes=["rc4::Rc4::apply_keystream", "rc4::Rc4::pseudo_random_generation"],
   inputs="state [u8;256], i, j, input byte: all any", asserts="one keystream byte and next state == textbook PRGA step (incl. counter wrap and i==j swap); empty call is the identity",
   bounds="one step from an arbitrary state (inductive); unwind 258", assumes=[])
-H("C09", "rc4", "c09_apply_is_steps", timeout=900,
+H("C09", "rc4", "c09_apply_is_steps", timeout=3600, tiers=["thorough"],
   encodes=["rc4::Rc4::apply_keystream"], inputs="state, i, j any; n in {0,1}; data any",
   asserts="an n-byte call equals n applications of the step function XORed onto the data; empty call is the identity", bounds="n in {0,1} from every state; unwind 258", assumes=[])
 H("C09", "rc4", "c09_apply_is_steps_2", timeout=5400, tiers=["thorough"],
